@@ -723,11 +723,35 @@ def lambda_skeleton_rule(ctx):
             bad = bad or "keyword-only parameters without *args need a bare `*`"
         if has_kw is True and "**<arg>" not in txt.replace(" ", ""):
             bad = bad or "`**kwarg` is not emitted"
+        # alignment of positional defaults: the index starts at the number of positional NAMES
+        for c in getattr(p, "carried", []):
+            if "defaults" in c["over"] and "kw_defaults" not in c["over"] and isinstance(c["init"], Sym):
+                terms = {re.sub(r":[A-Za-z|]+", "", k): v for k, v in c["init"].terms.items()}
+                want = {"len(Lambda.args.posonlyargs)": 1, "len(Lambda.args.args)": 1}
+                if c["over"].startswith("reversed(") and (terms != want or c["init"].const != 0):
+                    bad = bad or f"the index that right-aligns the positional defaults starts at {c['init'].key()} instead of len(posonlyargs)+len(args): a marker such as `/` is already in the list when the defaults are attached, so every default lands one parameter too far right (`lambda a, b=1, /` becomes `lambda a,b,/=1`)"
         if bad:
             rr.fail(f"C11-R6|Lambda|signature|{re.sub('[^a-z]+', '-', bad.lower())[:40]}", f"unparse_Lambda: {bad}: `{got[:140]}` [{short_ctx(p, 100)}]", what=what)
         else:
             rr.ok(what, sample={"rule": "C11-R6", "context": short_ctx(p, 80), "skeleton": got[:120]})
+    # an index that walks a positionally aligned list must be updated on EVERY iteration
+    by_var = {}
+    for p in paths:
+        for c in getattr(p, "carried", []):
+            if c["updated"] is not None and isinstance(c["init"], (Sym, Cst)):
+                by_var.setdefault((c["name"], c["site"], c["over"]), set()).add(c["updated"])
+    for (name, site, over), ups in by_var.items():
+        rr.instances += 1
+        what = f"Lambda|index|{name}@{site}"
+        if ups == {True, False}:
+            rr.fail(
+                f"C11-R6|Lambda|{name}|conditional-index-update",
+                f"unparse_Lambda ({site}): the index `{name}` that walks {over} is advanced on some iterations only (it is skipped for entries without a default): defaults are attached to the wrong parameter (`def f(*, a='d', b)` becomes `lambda *,a,b='d'`)",
+                where=site, what=what,
+            )
+        else:
+            rr.ok(what, sample={"rule": "C11-R6", "index": name, "walks": over, "updated_on_every_iteration": True})
     return rr
 
 
-RULES = [("C03-R1", rule_r1), ("C03-R2", rule_r2), ("C03-R3", rule_r3), ("C03-R4", rule_r4), ("C03-R4b", rule_r4b), ("C03-R5", rule_r5), ("C03-R6", rule_r6)]
+RULES = [("C03-R1", rule_r1), ("C03-R2", rule_r2), ("C03-R3", rule_r3), ("C03-R4", rule_r4), ("C03-R4b", rule_r4b), ("C03-R5", rule_r5), ("C03-R6", rule_r6), ("C11-R6", lambda_skeleton_rule)]
